@@ -52,6 +52,10 @@ def main(a):
     prop = a.prop
     tier = a.tier if a.tier in ("quick", "thorough") else "quick"
     seed = int(os.environ.get("VERIF_SEED", "0"))
+    global EVID
+    if os.path.realpath(a.repo) != "/repo":
+        # runs against a scratch copy (seeded changes, self tests) never touch the committed evidence of /repo
+        EVID = os.path.join(HERE, "replays", "scratch-evidence")
     os.makedirs(EVID, exist_ok=True)
     os.makedirs(REPLAYS, exist_ok=True)
     try:
